@@ -38,6 +38,9 @@ Definition unpack_obs (o : pobs) : obs := (map (fun x => (unpack (fst x), snd x)
 (* a session: the reads, and what was observed at each; the client starts with an empty buffer *)
 Definition chk_session (c : list (Z * Z) * list pobs) : bool :=
   chk_steps serial_step [] (map unpack (fst c)) (map unpack_obs (snd c)).
+(* one client over several connections (it is connected again between them): every connection starts from an empty
+   buffer, whatever the previous one left behind — a half packet buffered when the link broke never reaches the next link *)
+Definition chk_reconnect (c : list (list (Z * Z) * list pobs)) : bool := forallb chk_session c.
 (* the same against the loop of the pinned tree (diagnosis only: "the code is the unrepaired loop") *)
 Definition chk_session0 (c : list (Z * Z) * list pobs) : bool :=
   chk_steps serial_step0 [] (map unpack (fst c)) (map unpack_obs (snd c)).
